@@ -20,6 +20,7 @@ os.environ.setdefault("JAX_PLATFORMS", "cpu")
 os.environ.setdefault("XLA_FLAGS", "--xla_force_host_platform_device_count=1")
 os.environ.setdefault("OMP_NUM_THREADS", "1")
 os.environ.setdefault("TF_CPP_MIN_LOG_LEVEL", "3")
+os.environ.setdefault("JAX_TRACEBACK_FILTERING", "off")
 
 
 def _init_worker():
